@@ -7,9 +7,9 @@
    State [input, pos, win]: pos = bit position (Codec_Bits, deviation BitCache), win = history
    (Codec_Window, deviation TwoLevelHistory; ringbuf_pos = WPos(win, LzsW, LzsStart)).
 
-   An absolute ring position p is the distance d = (ringbuf_pos - 1 - p) mod W behind the write
-   position, so the copy is the LZ77 expansion WCopy.  p = ringbuf_pos (d = W-1) reads the byte
-   written W bytes ago and, continuing, the bytes after it - the same thing.
+   An absolute ring position p is the distance (ringbuf_pos - 1 - p) mod W behind the write
+   position, so the copy is an LZ77 expansion (Codec_Window!RingCopy; MC_Codec_Lzs checks this
+   module against a transcription of output_byte / output_block on small rings).
 
    End of input: read_bit / read_bits fail when fewer bits are left than asked for.  The C code
    reads pos and len *both* before it tests either, so a stream that ends inside the 11-bit
@@ -35,7 +35,6 @@ LzsRead(st) ==
      ELSE LET p == RdBits(inp, b0.pos, 11)
               n == RdBits(inp, p.pos, 4)          \* read even if p failed
           IN IF ~p.ok \/ ~n.ok THEN fail(n.pos)
-             ELSE LET d == (WPos(st.win, LzsW, LzsStart) + 2 * LzsW - 1 - p.v) % LzsW
-                      out == WCopy(st.win, d, n.v + LzsThreshold, LzsW, LzsStart, Spaces)
+             ELSE LET out == RingCopy(st.win, p.v, n.v + LzsThreshold, LzsW, LzsStart, Spaces)
                   IN [st |-> [st EXCEPT !.pos = n.pos, !.win = WPush(st.win, out, LzsW)], out |-> out]
 =====================================================================================
